@@ -32,6 +32,8 @@ def run(ctx):
         ctx.count("evaluations")
         if res.get("rejected_up_front"):
             ctx.count("rejected_up_front")
+        if res.get("draw_cap"):
+            ctx.count("runs_cut_by_nonterminating_ins_draw")
         if res["resumes"]:
             ctx.count("runs_with_resume")
         if res.get("finalised") is False:
